@@ -162,6 +162,7 @@ func VerifC08History() {
 	keep := (sh/9)%2 == 1
 	n := lib.VerifParam("children", 2)
 	h := lib.VerifParam("events", 3)
+	lib.VerifClockAdvance(0) // intensity 10 is never reached here: concrete clock
 	e := c08Setup(typ, strategy, keep, n, 10, nil, true)
 
 	// after init: all children started in spec order, each linked to the parent
@@ -345,6 +346,7 @@ func VerifC08Significant() {
 	for i := range sig {
 		sig[i] = lib.VerifPick("significant", 2) == 1
 	}
+	lib.VerifClockAdvance(0)
 	e := c08Setup(typ, strategy, false, n, 10, sig, noAuto)
 
 	for step := 0; step < h && e.final == nil; step++ {
